@@ -42,7 +42,7 @@ def main():
             na.append({'property_id': pid, 'reason': 'check under construction in this session (DESIGN.md section 7 has the plan); not yet claimed'})
     m = {
      'version': 1,
-     'setup_cmd': 'timeout 3000 make -C coq -j8',
+     'setup_cmd': 'timeout 3000 tools/nothp make -C coq -j16',
      'hooks': {'guard': 'YLDPROLOG_VERIF',
                'enable': 'bin/check exports YLDPROLOG_VERIF=1 and PYTHONPATH=/repo/src for the processes that import the implementation; nothing is built',
                'baseline_off_cmd': 'cd /repo && env -u YLDPROLOG_VERIF /venv/bin/python -m pytest -ra -q -p no:cacheprovider --timeout=900 --continue-on-collection-errors',
